@@ -8,10 +8,12 @@ impl Token { pub fn kind(&self) -> (r: TokenKind) ensures r == self.k { self.k }
 pub struct Expr { pub id: u64 }
 pub struct RuleP { pub op: Option<Prefix> }
 pub struct RuleI { pub op: Option<Infix>, pub precedence: Precedence }
-#[verifier::external_body] pub fn get_prefix(kind: TokenKind) -> (r: RuleP) { unimplemented!() }
+/// A-pratt: what kani:front/o01_p_prefix_action proves of the real PREFIX_TABLE, as far as the loop needs it: the Unary action is given to the
+/// three prefix operator tokens only
+#[verifier::external_body] pub fn get_prefix(kind: TokenKind) -> (r: RuleP) ensures r.op matches Some(Prefix::Unary) ==> is_unop_token(kind) { unimplemented!() }
 /// A-pratt: what kani:front/o01_p_infix_table proves of the real INFIX_TABLE — the binding power of each token; an action iff it binds at all
 #[verifier::external_body] pub fn get_infix(kind: TokenKind) -> (r: RuleI)
-  ensures prec_ord(r.precedence) == spec_infix(kind), r.op is Some <==> spec_infix(kind) != 0 { unimplemented!() }
+  ensures prec_ord(r.precedence) == spec_infix(kind), r.op is Some <==> spec_infix(kind) != 0, r.op == spec_infix_action(kind) { unimplemented!() }
 /// the derived PartialOrd of Precedence: declaration order
 #[verifier::external_body] pub fn verif_prec_le(a: &Precedence, b: &Precedence) -> (r: bool) ensures r == (prec_ord(*a) <= prec_ord(*b)) { unimplemented!() }
 
@@ -28,9 +30,12 @@ impl Parser {
   /// the next token becomes `current`, the old one `previous`
   #[verifier::external_body] pub fn advance(&mut self) -> (r: ParseResult<()>)
     ensures final(self).log@ == old(self).log@, r is Ok ==> final(self).previous == old(self).current { unimplemented!() }
+  /// the preconditions of prefix / infix are those of the real functions (prattops unit)
   #[verifier::external_body] pub fn prefix(&mut self, action: Prefix, can_assign: bool) -> (r: ParseResult<Expr>)
+    requires action is Unary ==> is_unop_token(old(self).previous.k),
     ensures r matches Ok(e) ==> final(self).log@ == old(self).log@.push(Ev::Prefix(old(self).previous.k, can_assign, e)) { unimplemented!() }
   #[verifier::external_body] pub fn infix(&mut self, action: Infix, lhs: Expr, can_assign: bool) -> (r: ParseResult<Expr>)
+    requires action is Binary ==> is_binop_token(old(self).previous.k),
     ensures r matches Ok(e) ==> final(self).log@ == old(self).log@.push(Ev::Infix(old(self).previous.k, can_assign, lhs, e)) { unimplemented!() }
   #[verifier::external_body] pub fn match_kind(&mut self, kind: TokenKind) -> (r: ParseResult<bool>)
     ensures final(self).log@ == old(self).log@, r == Ok::<bool, Diag>(false) ==> final(self).current == old(self).current && old(self).current.k != kind { unimplemented!() }
